@@ -63,32 +63,28 @@ theorem names_impl_sound_cex : ¬ names_impl_sound_full := by
   · cases h
   · cases hd
 
-/-- FULL statement: when `validateNames` reports no bad name, every name of the list passed `validateName`. -/
-def all_sans_validated_full : Prop :=
-  ∀ (r : NameRole) (names : List Str), validateNames r names = [] → ∀ n ∈ names, validateName r n = true
-
-/-- It holds for lists without an empty name … -/
-theorem all_sans_validated_partial (r : NameRole) (names : List Str) (hne : ∀ n ∈ names, n ≠ [])
-    (h : validateNames r names = []) : ∀ n ∈ names, validateName r n = true :=
-  validateNames_nil_all hne h
+/-- When `validateNames` reports no bad name, every name of the list passed `validateName` — and none of them is
+empty: an empty name is refused with the non-empty marker `""` (repair of finding F13; before it, a refused
+empty name was reported as the empty string, which the callers read as "all names pass"). -/
+theorem all_sans_validated (r : NameRole) (names : List Str) (h : validateNames r names = []) :
+    ∀ n ∈ names, validateName r n = true ∧ n ≠ [] := by
+  intro n hn
+  have hv := validateNames_nil_all h n hn
+  exact ⟨hv, (validateName_body hv).1⟩
 
 example : validateNames exRole [str "a.ex.com", str "ex.com"] = [] := by decide
 example : validateNames exRole [str "a.ex.com", str "evil.org"] = str "evil.org" := by decide
-
-/-- … and fails with one: a refused empty name is reported as `""`, which the callers read as "no bad name",
-and the names after it are never looked at (finding: empty-san-short-circuits-validateNames). -/
-theorem all_sans_validated_cex : ¬ all_sans_validated_full := by
-  intro hfull
-  have := hfull { cexRole with allowedDomains := [str "ex.com"], allowSub := true, allowLocalhost := false }
-    [[], str "evil.org"] (by decide) (str "evil.org") (by simp)
-  exact absurd this (by decide)
+/-- the shape that used to slip through: an empty entry in front is now itself reported -/
+example : validateNames exRole [[], str "evil.org"] = emptyMarker := by decide
+example : validateNames { exRole with allowAnyName := true, enforceHostnames := false } [[]] ≠ [] := by decide
 
 /-- A name whose host part carries a `*` is accepted only by a role with `allow_wildcard_certificates`, and
 only in RFC 6125 shape: one `*`, in the leftmost label. (Holds also under `allow_any_name`.) -/
 theorem wildcard_needs_permission (r : NameRole) (n : Str) (hat : containsCh n '@' = false)
-    (hs : containsCh n '*' = true) (h : validateName r n = true) :
+    (hs : containsCh n '*' = true) (h0 : validateName r n = true) :
     r.allowWildcard = true ∧ wildcardHost n := by
-  unfold validateName at h
+  have h := (validateName_body h0).2
+  unfold validateNameBody at h
   have hes : emailSplit n = some (n, n, false) := by simp [emailSplit, hat]
   rw [hes] at h
   simp only [hs, if_true] at h
@@ -112,12 +108,14 @@ theorem email_wildcard_refused (r : NameRole) (loc host : Str) (hl : containsCh 
     have : containsCh (loc ++ '@' :: host) '@' = true := by rw [containsCh_append, containsCh_cons]; simp
     rw [this, splitOn_append, splitOn_of_not_contains hl, splitOn_of_not_contains hh]
     rfl
-  unfold validateName
-  rw [hes]
-  simp only [hs, if_true]
-  split
-  · rfl
-  · simp
+  have hb : validateNameBody r (loc ++ '@' :: host) = false := by
+    unfold validateNameBody
+    rw [hes]
+    simp only [hs, if_true]
+    split
+    · rfl
+    · simp
+  simp [validateName, hb]
 
 example : validateName { cexRole with allowAnyName := true } (str "user@*.ex.com") = false := by decide
 
@@ -126,10 +124,11 @@ an accepted name is made of LDH labels (the leftmost one may carry the wildcard)
 behaves, when the part that is checked is empty: an empty host (`""`, `user@`) or a wildcard label followed
 by a bare dot (`*.`). -/
 theorem anyname_still_enforces_hostnames (r : NameRole) (n : Str) (he : r.enforceHostnames = true)
-    (h : validateName r n = true) :
+    (h0 : validateName r n = true) :
     ∃ sh, shapeOf n sh ∧
       (sh.host = [] ∨ hostShape sh.host ∨ (∃ w, sh.host = w ++ ['.'] ∧ leftWildLabel w = true)) := by
-  unfold validateName at h
+  have h := (validateName_body h0).2
+  unfold validateNameBody at h
   split at h
   · simp at h
   · rename_i r0 ed isEmail hes
@@ -322,19 +321,11 @@ theorem leaf_unless_ca_endpoint (e : Env) (role : Role) (req : Req) (c : Cert)
 
 /-! ## end to end: the names in an issued certificate -/
 
-/-- FULL statement: every DNS and e-mail SAN of a certificate from issue/<role> or sign/<role> is allowed by
-the label-level reading of the role (up to the wildcard-localhost exception). -/
-def issued_names_allowed_full : Prop :=
-  ∀ (e : Env) (role : Role) (req : Req) (c : Cert), req.ep ≠ .verbatim →
-    (role.names.allowTokenDisplayName = true → role.names.displayName ≠ []) →
-    process e role req = .ok c →
-    ∀ n, n ∈ c.dns ∨ n ∈ c.emails → nameAllowed role.names n ∨ wildcardLocalhost role.names n
-
-/-- It holds for every request whose CSR carries no empty SAN entry (all requests to issue/<role>, and
-sign/<role> with a well-formed CSR): accepted ⇒ every DNS / e-mail SAN in the certificate is allowed. -/
-theorem issued_names_allowed_partial (e : Env) (role : Role) (req : Req) (c : Cert) (hep : req.ep ≠ .verbatim)
+/-- Every DNS and e-mail SAN of a certificate from issue/<role> or sign/<role> is allowed by the label-level
+reading of the role (up to the wildcard-localhost exception of `names_impl_sound_partial`, finding F14) — for
+every role, request and CSR, CSRs with empty SAN entries included (those are refused since the repair of F13). -/
+theorem issued_names_allowed (e : Env) (role : Role) (req : Req) (c : Cert) (hep : req.ep ≠ .verbatim)
     (hdn : role.names.allowTokenDisplayName = true → role.names.displayName ≠ [])
-    (hcsr : ∀ cs, req.csr = some cs → (∀ n ∈ cs.dns, n ≠ []) ∧ (∀ n ∈ cs.emails, n ≠ []))
     (h : process e role req = .ok c) :
     ∀ n, n ∈ c.dns ∨ n ∈ c.emails → nameAllowed role.names n ∨ wildcardLocalhost role.names n := by
   have hv : (req.ep == Endpoint.verbatim) = false := by
@@ -343,14 +334,14 @@ theorem issued_names_allowed_partial (e : Env) (role : Role) (req : Req) (c : Ce
       ∀ n, n ∈ (finish e role req key nm ips uris v).dns ∨ n ∈ (finish e role req key nm ips uris v).emails →
         nameAllowed role.names n ∨ wildcardLocalhost role.names n := by
     intro nm key ips uris v hb n hn
-    obtain ⟨hne, hd, hem⟩ := buildNames_ok hcsr hb
+    obtain ⟨hd, hem⟩ := buildNames_ok hb
     unfold finish at hn
     simp only [hv] at hn
     rcases hn with hn | hn
     · have h1 := mem_dedupStable _ _ (mem_sortBy _ _ _ hn)
-      exact validateName_sound _ _ hdn (validateNames_nil_all hne.1 hd n h1)
+      exact validateName_sound _ _ hdn (validateNames_nil_all hd n h1)
     · have h1 := mem_dedupStable _ _ (mem_sortBy _ _ _ hn)
-      exact validateName_sound _ _ hdn (validateNames_nil_all hne.2 hem n h1)
+      exact validateName_sound _ _ hdn (validateNames_nil_all hem n h1)
   unfold process at h
   simp only [hv] at h
   repeat' (split at h)
@@ -379,7 +370,7 @@ def cxReqVerbatim : Req :=
     ep := .verbatim,
     csr := some { cxCSR with dns := [str "evil.org"], exts := [.basicConstraintsCA, .subjectAltName] } }
 
-/-- non-vacuity of `issued_names_allowed_partial`: a well-formed CSR for a subdomain is accepted … -/
+/-- non-vacuity of `issued_names_allowed`: a well-formed CSR for a subdomain is accepted … -/
 example : ∃ c, process cxEnv cxRole { cxReq with csr := some { cxCSR with dns := [str "b.ex.com"] } } = .ok c ∧
     c.dns = [str "a.ex.com", str "b.ex.com"] ∧ c.isCA = false := ⟨_, rfl, by decide, by decide⟩
 /-- … the same CSR with `evil.org` instead is refused … -/
@@ -390,37 +381,8 @@ example : ∃ x, process cxEnv cxRole { cxReq with csr := some { cxCSR with dns 
 example : ∃ c, process cxEnv cxRole cxReqVerbatim = .ok c ∧ c.isCA = false ∧ c.dns = [str "evil.org"] :=
   ⟨_, rfl, by decide, by decide⟩
 
-/-- The unchanged code violates the full statement: sign/<role> under `allowed_domains = ex.com,
-allow_subdomains` with a CSR whose DNS SANs are `["", "evil.org"]` is accepted and the certificate carries
-`evil.org` (finding: empty-san-short-circuits-validateNames; reproduced on the real engine by the harness). -/
-theorem issued_names_allowed_cex : ¬ issued_names_allowed_full := by
-  intro hfull
-  have hproc : ∃ c, process cxEnv cxRole cxReq = .ok c ∧ str "evil.org" ∈ c.dns := ⟨_, rfl, by decide⟩
-  obtain ⟨c, hc, hmem⟩ := hproc
-  rcases hfull cxEnv cxRole cxReq c (by decide) (by intro h; cases h) hc _ (Or.inl hmem) with h | h
-  · obtain ⟨sh, hshape, _, hrule⟩ := h
-    have hhost : sh.host = str "evil.org" := by
-      rcases hshape with ⟨_, hh, _⟩ | ⟨_, loc, hname, _, _⟩
-      · exact hh
-      · have : containsCh (str "evil.org") '@' = true := by
-          rw [hname, containsCh_append, containsCh_cons]; simp
-        exact absurd this (by decide)
-    rw [hhost] at hrule
-    rcases hrule with h | ⟨h, _⟩ | ⟨h, _⟩ | ⟨d, hd, _, hdom⟩
-    · cases h
-    · cases h
-    · cases h
-    · have hd' : d = str "ex.com" := by simpa [cxRole, cxNames, cexRole] using hd
-      subst hd'
-      rcases hdom with ⟨h, _⟩ | ⟨_, pre, hpre, heq⟩ | ⟨h, _⟩
-      · cases h
-      · have hl : labels (lower (str "evil.org")) = [str "evil", str "org"] := by decide
-        have hl2 : labels (lower (str "ex.com")) = [str "ex", str "com"] := by decide
-        rw [hhost, hl, hl2] at heq
-        have hlen := congrArg List.length heq
-        simp only [List.length_append, List.length_cons, List.length_nil] at hlen
-        exact hpre (List.eq_nil_of_length_eq_zero (by omega))
-      · cases h
-  · exact absurd h.1 (by decide)
+/-- the request that exposed finding F13 — sign/<role> under `allowed_domains = ex.com, allow_subdomains` with a
+CSR whose DNS SANs are `["", "evil.org"]` — is refused as a bad subject alternate name -/
+example : ∃ x, process cxEnv cxRole cxReq = .err x ∧ x = "san" := ⟨_, rfl, rfl⟩
 
 end C15
